@@ -57,6 +57,9 @@ COMPONENTS = {
 }
 
 
+NO_EVIDENCE = False
+
+
 def load_known():
     p = os.path.join(HERE, "known_findings.json")
     if not os.path.exists(p):
@@ -150,8 +153,9 @@ def run_batch(prop, tier, master, n_ff, n_f, workers, deadline):
 
 
 def write_replay(prop, v, ops, digest=None):
-    os.makedirs(os.path.join(HERE, "replays"), exist_ok=True)
-    path = os.path.join(HERE, "replays", "%s-%d.json" % (prop, v["seed"]))
+    rdir = os.environ.get("VERIF_REPLAY_DIR", os.path.join(HERE, "replays"))
+    os.makedirs(rdir, exist_ok=True)
+    path = os.path.join(rdir, "%s-%d.json" % (prop, v["seed"]))
     doc = {"format": 1, "property": prop, "seed": v["seed"], "faults": v["faults"],
            "config": v.get("swarm"), "ops": ops, "violation": v["violation"],
            "vclass": v["vclass"], "digest": digest}
@@ -229,7 +233,8 @@ def check_property(prop, tier, master, n_ff, n_f, workers):
                      if finding_matches(f, (p_, inv, sig))), "")
         print("KNOWN-FINDING: property=%s %s/%s hit in %d places: %s" % (p_, inv, sig, n, what))
     wall = time.time() - t0
-    write_evidence(prop, tier, master, tot, wall, wall_runs, nviol, replays, n_ff, n_f)
+    if not NO_EVIDENCE:
+        write_evidence(prop, tier, master, tot, wall, wall_runs, nviol, replays, n_ff, n_f)
     if tot["errors"]:
         for e in tot["errors"][:5]:
             print("HARNESS-ERROR:", e.get("tb", "")[-2000:], file=sys.stderr)
@@ -342,7 +347,11 @@ def main():
     ap.add_argument("--selftest")
     ap.add_argument("--digests")
     ap.add_argument("--n", type=int, default=16)
+    ap.add_argument("--no-evidence", action="store_true",
+                    help="do not rewrite evidence/<id>.json (used by tools/mutants.py)")
     a = ap.parse_args()
+    global NO_EVIDENCE
+    NO_EVIDENCE = a.no_evidence
     if a.setup:
         pf = A.load()
         import numpy
